@@ -197,7 +197,7 @@ def run_doc(ver, lines):
                         pos = o.pos
                     except gfapy.Error:
                         return "\t".join(["L"] + head + [ov])
-                    return "\t".join(["C"] + head + [str(pos), ov])
+                    return "\t".join(["C"] + head + [str(pos).rstrip("$"), ov])   # pos may be a LastPos object
                 r, v = guard(view)
                 ln[j][2] = [r, [v] if r == "ok" else []]
     log["ln"] = ln
@@ -321,7 +321,25 @@ def focus_rt(case):
     return case["text"].split(";")[-1].split("|")[0] if case["kind"] != "X" else "X"
 
 
+def example_rank(text):
+    """which rejected document represents a group: prefer two distinct segments and a CIGAR
+    with a match operation, then the shortest text (presentation only)"""
+    last = text.split(";")[-1]
+    edge = [l for l in text.split(";") if l[0] in "LCE"]
+    return (0 if text.count(";S|") >= 1 else 1, 0 if all(re.search(r"\dM", e) for e in edge) else 1,
+            len(text), text)
+
+
+CLAUSE_ORDER = ["C06.alignment", "C06.interval", "C06.pos", "C06.pair", "C06.path", "C06.invalid-output",
+                "C06.refused", "C06.mistranslated", "C06.name", "C06.tags", "C06.segment", "C06.header",
+                "C06.count", "C06.roundtrip", "foreign"]
+API_CLASS = {"line": "convert", "line_s": "convert", "gfa": "convert", "gfa_s": "convert",
+             "accessors": "accessors", "roundtrip": "roundtrip"}
+
+
 def group_violations(cases, rejects):
+    """One violation per (source version, record type, clause, API class), with the smallest
+    rejected document as its replayable example."""
     by_id = {c["id"]: c for c in cases}
     groups = {}
     outside = 0
@@ -331,14 +349,19 @@ def group_violations(cases, rejects):
             outside += 1
             continue
         for api, clause in pairs:
-            key = (c["ver"], focus_rt(c), clause)
+            key = (c["ver"], focus_rt(c), clause, API_CLASS.get(api, api))
             g = groups.setdefault(key, dict(n=0, apis=set(), ex=None))
             g["n"] += 1
             g["apis"].add(api)
-            if g["ex"] is None or (len(c["text"]), c["text"]) < (len(g["ex"]["text"]), g["ex"]["text"]):
+            if g["ex"] is None or example_rank(c["text"]) < example_rank(g["ex"]["text"]):
                 g["ex"] = c
+
+    def order(item):
+        (ver, rt, clause, ac), g = item
+        return (ac != "convert", CLAUSE_ORDER.index(clause) if clause in CLAUSE_ORDER else 99, ver, rt)
+
     viols = []
-    for (ver, rt, clause), g in sorted(groups.items()):
+    for (ver, rt, clause, ac), g in sorted(groups.items(), key=order):
         c = g["ex"]
         viols.append(dict(family="convert", clauses=[clause], api="+".join(sorted(g["apis"])),
                           input="\n".join(doc_lines(c["text"])), version=ver, record=rt, occurrences=g["n"],
@@ -443,7 +466,7 @@ def selftest():
     with the expected clause (and to accept the uncorrupted log for that clause)."""
     docs = [("gfa1", "S|A|ACGTAC;S|B|*|LN:i:5;L|A|+|B|-|2M1D1M|ID:Z:l1"),
             ("gfa1", "S|A|ACGTAC;S|B|*|LN:i:3;C|A|+|B|+|2|2M1I|ID:Z:c1"),
-            ("gfa2", "S|A|6|ACGTAC;S|B|5|*;E|e1|A+|B+|3|6$|0|4|1M1I2M")]
+            ("gfa2", "S|A|6|ACGTAC;S|B|5|*;E|e1|A+|B+|3|6$|0|3|3M")]   # pure match: right on the pinned tree too
     cases = [dict(id=i + 1, kind="T", ver=v, text=t) for i, (v, t) in enumerate(docs)]
     base = [run_case(c) for c in cases]
 
@@ -465,6 +488,9 @@ def selftest():
         (0, "swap orientation", "C06.pair", lambda x: fld(x, 3, lambda p: "B+") if x.startswith("E") else x),
         (1, "drop $ of contained", "C06.interval", lambda x: fld(x, 7, lambda p: p.rstrip("$")) if x.startswith("E") else x),
         (1, "shift container interval", "C06.interval", lambda x: fld(x, 4, lambda p: "1") if x.startswith("E") else x),
+        (0, "change segment length", "C06.segment", lambda x: x.replace("S\tA\t6\t", "S\tA\t7\t")),
+        (0, "invent a tag", "C06.tags", lambda x: x + "\tqq:i:1" if x.startswith("E") else x),
+        (0, "rename the edge", "C06.name", lambda x: fld(x, 1, lambda p: "zz") if x.startswith("E") else x),
         (2, "change CIGAR", "C06.alignment", lambda x: fld(x, 5, lambda p: "2M1I1M") if x.startswith("L") else x),
         (2, "swap from/to", "C06.pair", lambda x: "\t".join([x.split("\t")[0], "B", "+", "A", "+"] + x.split("\t")[5:]) if x.startswith("L") else x),
     ]
